@@ -962,6 +962,33 @@ func c17_7(c *core.Ctx, p *core.Prog) {
 	if !a.ok(c) {
 		return
 	}
+	// the traversal is unconditional: every path of an entry point to a return reads the top-level resource list
+	// of its argument (no "nothing to do" shortcut keyed on record counts: resource and scope attributes are
+	// targets whether or not records sit below them)
+	for _, e := range a.entries {
+		var top *ssa.Call
+		core.EachInstr(e, func(i ssa.Instruction) {
+			cl, ok := i.(*ssa.Call)
+			if !ok || top != nil {
+				return
+			}
+			if f := pdataCallee(cl); f != nil && strings.HasPrefix(f.Name(), "Resource") && len(cl.Call.Args) == 1 {
+				for _, pr := range e.Params {
+					if cl.Call.Args[0] == ssa.Value(pr) || core.Canon(cl.Call.Args[0]) == ssa.Value(pr) {
+						top = cl
+					}
+				}
+			}
+		})
+		key := "entry|" + core.FuncName(e)
+		if top == nil {
+			c.Undecided(key, p.Pos(e.Pos()), core.FuncName(e), "top-level resource list of the argument not found")
+			continue
+		}
+		skip, _ := (core.PathQuery{Fn: e, Avoid: func(i ssa.Instruction) bool { return i == ssa.Instruction(top) }, ExitReturnOnly: true}).Exists()
+		c.Check(!skip, key, p.Pos(top.Pos()), core.FuncName(e), "every path through the entry point traverses the resources",
+			"the entry point can return without traversing the resources of its argument (an early 'nothing to obfuscate' return): resource and scope attributes of a batch without records go out in clear text, and one instance maps the same string to its substitute in one call and to itself in the next")
+	}
 	// every X.At(i) in the package: i ranges over [0, X.Len())
 	n := 0
 	for _, fn := range obfFuncs(c, p) {
